@@ -83,6 +83,10 @@ def children(E, R):
     return C13.children_real(E, R, False)
 
 
+def leaf_only(E, R, L, via, testnet):
+    return h_bip32.leaf_only(E, R, L, False, via, testnet)
+
+
 def cases(tier):
     cs = [Case("children", "children", weight=20, max_paths=5000,
                need=("bulk-generated child equals the single-step derivation of its index",))]
@@ -97,6 +101,10 @@ def cases(tier):
     for L in range(0, (3 if tier == "quick" else 5) + 1):
         cs.append(Case("path[%d]" % L, "path", dict(L=L, testnet=(L % 2 == 1)), weight=10 * (L + 1), max_paths=5000,
                        need=("path: leaf key == folded CKDpriv", "path: xprv string payload")))
+    for L, via in ((1, "ckd"), (2, "derive_path"), (2, "ckd")):
+        cs.append(Case("leaf_only[%d,%s]" % (L, via), "leaf_only", dict(L=L, via=via, testnet=(via == "ckd" and L == 2)), weight=10 * L,
+                       max_paths=5000, need=("leaf kept alone (ancestors garbage-collected): parent fingerprint is that of the last parent",
+                                             "leaf kept alone (ancestors garbage-collected): xprv string payload")))
     return cs
 
 
@@ -109,4 +117,5 @@ def vectors():
     v.append(("step", dict(form=32, testnet=False), dict(k=k, c=c, depth=0, pidx=0, fp="00000000", index=2 ** 31)))
     v.append(("step", dict(form=33, testnet=False), dict(k=k, c=c, depth=0, pidx=0, fp="00000000", index=1)))
     v.append(("path", dict(L=2, testnet=False), dict(k=k, c=c, i0=2 ** 31, i1=1)))
+    v.append(("leaf_only", dict(L=2, via="derive_path", testnet=False), dict(k=k, c=c, i0=2 ** 31, i1=1)))
     return v
